@@ -186,7 +186,7 @@ fn c13_array_alias() {
 // C02 / C12  the unchecked helpers of the machine (assumed contracts of contracts/verus/prelude_vm.rs)
 // ------------------------------------------------------------------------------------------
 fn vm_with(code: Vec<u8>, stack: Vec<Object>, ip: usize, bp: u16) -> VM {
-    VM { stack, globals: Vec::new(), frames: vec![Frame::new(0, 0)], instructions: code, ip, bp }
+    VM { stack, globals: Vec::new(), frames: vec![Frame::new(0, 0)], instructions: code, ip, bp, gc: GC::new() }
 }
 
 /// O02.h1  read_u8: requires ip < code.len()  ensures value == code[ip], ip' == ip+1, nothing else changes
@@ -332,7 +332,7 @@ fn c12_call_twin() {
     let mut st = Vec::with_capacity(8);
     st.push(c0); st.push(c1); st.push(arg); st.push(f);
     // junk above the live part of the stack must never become visible as a local
-    let mut vm = ManuallyDrop::new(VM { stack: st, globals: Vec::new(), frames: vec![Frame::new(7, 0)], instructions: vec![OpCode::Call as u8, 1, 0], ip: 1, bp: 0 });
+    let mut vm = ManuallyDrop::new(VM { stack: st, globals: Vec::new(), frames: vec![Frame::new(7, 0)], instructions: vec![OpCode::Call as u8, 1, 0], ip: 1, bp: 0, gc: GC::new() });
     vm.frames.reserve(4);
     let r = keep(vm.verif_arm_call());
     if locals < 1 {
@@ -349,17 +349,24 @@ fn c12_call_twin() {
     }
 }
 
-/// O12.3k [bounded: caller stack of 2 slots, callee activation of 0..=2 slots] ReturnValue / Return: the caller's
-/// stack is exactly as before plus the result (null for Return); frame popped; ip / bp restored
-#[kani::proof]
-#[kani::unwind(6)]
-#[kani::stub(std::fmt::format, fmt_stub)]
-fn c12_return_twin() {
+/// O12.3k [bounded: caller stack of 2 slots, callee activation of 0 / 1 / 2 slots] ReturnValue / Return: the
+/// caller's stack is exactly as before plus the result (null for Return); frame popped; ip / bp restored
+macro_rules! return_twin {
+    ($name:ident, $n:expr) => {
+        #[kani::proof]
+        #[kani::unwind(6)]
+        #[kani::stub(std::fmt::format, fmt_stub)]
+        fn $name() { return_twin_contract($n); }
+    };
+}
+return_twin!(c12_return_twin_0, 0);
+return_twin!(c12_return_twin_1, 1);
+return_twin!(c12_return_twin_2, 2);
+fn return_twin_contract(n_locals: usize) {
     let (c0, c1, l0, l1, res, last) = (any_immediate(), any_immediate(), any_immediate(), any_immediate(), any_immediate(), any_immediate());
-    let n_locals: usize = kani::any();
-    kani::assume(n_locals <= 2);
-    kani::cover!(n_locals == 2);
     let with_value: bool = kani::any();
+    kani::cover!(with_value);
+    kani::cover!(!with_value);
     let mut st = Vec::with_capacity(8);
     st.push(c0); st.push(c1);
     if n_locals >= 1 { st.push(l0); }
@@ -367,7 +374,7 @@ fn c12_return_twin() {
     if with_value { st.push(res); }
     let (rip, rbp): (usize, u16) = (kani::any(), kani::any());
     kani::assume(rbp <= 2);
-    let mut vm = ManuallyDrop::new(VM { stack: st, globals: Vec::new(), frames: vec![Frame::new(rip, rbp), Frame::new(99, 2)], instructions: vec![0], ip: 99, bp: 2 });
+    let mut vm = ManuallyDrop::new(VM { stack: st, globals: Vec::new(), frames: vec![Frame::new(rip, rbp), Frame::new(99, 2)], instructions: vec![0], ip: 99, bp: 2, gc: GC::new() });
     let constants = ManuallyDrop::new(Vec::new());
     let mut gc = new_gc();
     let r = keep(if with_value { vm.verif_arm_return_value(&constants, &mut gc, last) } else { vm.verif_arm_return(&constants, &mut gc, last) });
